@@ -652,7 +652,13 @@ func (fp *FuncProof) houdiniPath(pe *PathEnd, phase string) (changed, kChanged b
 		if !progress {
 			// decide each droppable goal separately; whatever cannot be proved is dropped
 			for k, a := range live {
-				r, _, _ := fp.query("houdini1", hs, qs, []*Term{gts[k]}, nil)
+				r, q1, _ := fp.query("houdini1", hs, qs, []*Term{gts[k]}, nil)
+				if r.Status != "unsat" && r.Status != "sat" {
+					// every solver gave up (typical under machine load): one more attempt with a
+					// budget four times as long before a possibly true atom is given up
+					body, _ := q1.Build(0)
+					r = fp.eng.pool.Decide(body, nil, fp.opts.SlowMs, fp.opts.SlowMs*4)
+				}
 				if r.Status != "unsat" {
 					drop(a)
 				}
